@@ -218,3 +218,92 @@ Theorem C20_canonical_dupkey_refuted :
   exists l l' : list (N * N * N), Permutation l l' /\ exec_sort_commits l <> exec_sort_commits l'.
 Proof. exact sort_dupkey_not_canonical. Qed.
 Print Assumptions C20_canonical_dupkey_refuted.
+
+(* ---- the executable properties of Check/C20_check.v are the property (judge soundness) ---- *)
+Require Import Verif.Check.C20_check Verif.Proofs.JudgeSoundC20P.
+
+(* sink leaf: the custom marshalers.  [leaf_spec] (Proofs/JudgeSoundC20P.v) lists, per kind of call, the round-trip
+   clause above with the implementation's own answer in place of the model's (decoders: the accepted value re-encodes
+   to a token that decodes to it again; encoders: the emitted text decodes to the value encoded). *)
+Theorem C20_judge_leaf_model_passes : forall i, leaf_pre i -> leaf_ok i (leaf_model i) = true.
+Proof. exact leaf_model_passes. Qed.
+Print Assumptions C20_judge_leaf_model_passes.
+
+Theorem C20_judge_leaf_sound : forall i o, leaf_ok i o = true -> leaf_spec i o.
+Proof. exact leaf_sound. Qed.
+Print Assumptions C20_judge_leaf_sound.
+
+(* two instances of leaf_spec spelled out: MarshalJSON of Bytes, UnmarshalJSON of Bytes32 *)
+Theorem C20_judge_leaf_sound_bytes_enc : forall b t,
+  leaf_ok (LBytesEnc b) (OText t) = true -> bytes_dec t = Some (bytes_content b).
+Proof. exact (fun b t => leaf_sound (LBytesEnc b) (OText t)). Qed.
+Print Assumptions C20_judge_leaf_sound_bytes_enc.
+
+Theorem C20_judge_leaf_sound_b32_dec : forall prev tok n l,
+  leaf_ok (LB32Dec prev tok) (OBytes n l) = true ->
+  length l = length prev /\ bytes_ok l /\ bytes32_dec prev (bytes32_enc l) = Some l.
+Proof. exact (fun prev tok n l => leaf_sound (LB32Dec prev tok) (OBytes n l)). Qed.
+Print Assumptions C20_judge_leaf_sound_b32_dec.
+
+(* sinks struct_commit / struct_exec: Encode / Decode of the wire types at byte level *)
+Theorem C20_judge_struct_model_passes : forall t v,
+  wf_ty t = true -> wt t v = true -> wf_json (enc t v) = true ->
+  struct_ok (t, v, None) (struct_model (t, v, None)) = true.
+Proof. exact struct_model_passes_honest. Qed.
+Print Assumptions C20_judge_struct_model_passes.
+
+Theorem C20_judge_struct_foreign_model_passes : forall t v fb,
+  wf_ty t = true ->
+  (forall v', decode_text t fb = Some v' -> wt t v' = true /\ wf_json (enc t v') = true) ->
+  struct_ok (t, v, Some fb) (struct_model (t, v, Some fb)) = true.
+Proof. exact struct_model_passes_foreign. Qed.
+Print Assumptions C20_judge_struct_foreign_model_passes.
+
+(* honest value: C20_wire_roundtrip with the implementation's bytes b and the implementation's decoded value d;
+   accepted foreign bytes: C20_wire_idempotent on the implementation's decoded value *)
+Theorem C20_judge_struct_sound : forall t v f b d fl,
+  struct_ok (t, v, f) (b, d, fl) = true ->
+  wf_ty t = true /\
+  match f with
+  | None => wt t v = true /\ wf_json (enc t v) = true /\ fl = true /\
+            d = Some (norm t v) /\ decode_text t b = Some (norm t v)
+  | Some _ => forall v', d = Some v' ->
+            wt t v' = true /\ wf_json (enc t v') = true /\ fl = true /\
+            b = encode_text t v' /\ decode_text t b = Some (norm t v')
+  end.
+Proof. exact (fun t v f b d fl => struct_sound (t, v, f) (b, d, fl)). Qed.
+Print Assumptions C20_judge_struct_sound.
+
+(* sink jprint: encoding/json's bytes for a tree of the subset parse back to the tree *)
+Theorem C20_judge_jprint_model_passes : forall j, wf_json j = true -> jprint_ok j (jprint_model j) = true.
+Proof. exact jprint_model_passes. Qed.
+Print Assumptions C20_judge_jprint_model_passes.
+
+Theorem C20_judge_jprint_sound : forall j b, jprint_ok j b = true -> wf_json j = true /\ parse b = Some j.
+Proof. exact jprint_sound. Qed.
+Print Assumptions C20_judge_jprint_sound.
+
+(* sink jparse: the tree encoding/json built lies in the subset and print-then-parse gives it back *)
+Theorem C20_judge_jparse_model_passes : forall i, jparse_ok i (jparse_model i) = true.
+Proof. exact jparse_model_passes. Qed.
+Print Assumptions C20_judge_jparse_model_passes.
+
+Theorem C20_judge_jparse_sound : forall i j,
+  jparse_ok i (PTree (Some j)) = true -> wf_json j = true /\ parse (print j) = Some j.
+Proof. exact jparse_sound. Qed.
+Print Assumptions C20_judge_jparse_sound.
+
+(* sinks sort_commit / sort_exec: canonical order; (a) outside the recorded class F29 (a sort key twice) *)
+Theorem C20_judge_sort_model_passes : forall i,
+  sort_known i = 0%N -> sort_same_items i -> sort_ok i (sort_model i) = true.
+Proof. exact sort_model_passes. Qed.
+Print Assumptions C20_judge_sort_model_passes.
+
+Theorem C20_judge_sort_sound : forall i o, sort_ok i o = true ->
+  match i, o with
+  | SCommit _ _, SOCommit oa ob same => same = true /\ oa = ob
+  | SExec _ _ _ _, SOExec oc oc' orr orr' same => same = true /\ oc = oc' /\ orr = orr'
+  | _, _ => False
+  end.
+Proof. exact sort_sound. Qed.
+Print Assumptions C20_judge_sort_sound.
